@@ -28,7 +28,8 @@ type config struct {
 }
 
 // wire sizes of the packets the alphabet writes (payload, number of CSRCs)
-var sizes = [][2]int{{8, 0}, {688, 0}, {1460, 0}, {1460, 7}, {1460, 15}, {0, 0}}
+var sizes = [][2]int{{8, 0}, {680, 0}, // the 700-byte packet carries an 8-byte header extension block
+	{1460, 0}, {1460, 7}, {1460, 15}, {0, 0}}
 
 var rates = []int{100_000, 1_000_000, 5_000_000}
 
@@ -133,16 +134,35 @@ func (sys *system) write(stream, size int) error {
 	for i := 0; i < sizes[size][1]; i++ {
 		h.CSRC = append(h.CSRC, uint32(0xA0+i))
 	}
+	if size == 1 {
+		h.Extension, h.ExtensionProfile = true, 0xBEDE
+		_ = h.SetExtension(1, []byte{byte(q), 0x5A, 0xA5})
+	}
 	p := make([]byte, sizes[size][0])
 	for i := range p {
 		p[i] = byte(int(q)*31 + i)
 	}
 	hc, pc := h.Clone(), append([]byte(nil), p...)
 	n, err := sys.api.write(stream, &h, p)
+	// "with the header and payload it had when accepted": the caller reuses what it passed
+	wireHdr := h.MarshalSize()
+	for j := range p {
+		p[j] = 0xEE
+	}
+	for j := range h.CSRC {
+		h.CSRC[j] = 0xEEEEEEEE
+	}
+	for _, id := range h.GetExtensionIDs() {
+		x := h.GetExtension(id)
+		for j := range x {
+			x[j] = 0xEE
+		}
+	}
+	h.SequenceNumber, h.Timestamp, h.Marker = 0xEEEE, 0xEEEEEEEE, !h.Marker
 	if err != nil {
 		return nil // not accepted: nothing is promised
 	}
-	wire := h.MarshalSize() + len(p)
+	wire := wireHdr + len(p)
 	if n != wire && n != 0 {
 		// the returned count is informational; not judged
 		_ = n
